@@ -39,6 +39,10 @@ type env map[string]string
 // rounding function `rnd : Rat → Rat` (namespace GeomV.C02.GenR; see ProofsFloat.lean)
 var rmode bool
 
+// xmode: third translation over XF (float64 with NaN, ±Inf, -0; lean/GeomV/C02/XF.lean): every comparison, `-` and `/`
+// is the IEEE operation on XF (namespace GeomV.C02.GenX)
+var xmode bool
+
 type xerr struct{ msg string }
 
 func fail(f string, a ...interface{}) { panic(xerr{fmt.Sprintf(f, a...)}) }
@@ -73,6 +77,9 @@ func trExpr(x ast.Expr, e env) (string, kind) {
 		return e.name(t.Name), kPt
 	case *ast.BasicLit:
 		if t.Kind == token.INT {
+			if xmode {
+				return "(XF.ofInt " + t.Value + ")", kRat
+			}
 			return t.Value, kRat
 		}
 		fail("literal %s", t.Value)
@@ -153,6 +160,9 @@ func trExpr(x ast.Expr, e env) (string, kind) {
 			if kl != kRat || kr != kRat {
 				fail("subtraction of non-coordinates")
 			}
+			if xmode {
+				return "(XF.sub " + l + " " + r + ")", kRat
+			}
 			if rmode {
 				return "(rnd (" + l + " - " + r + "))", kRat
 			}
@@ -161,12 +171,19 @@ func trExpr(x ast.Expr, e env) (string, kind) {
 			if kl != kRat || kr != kRat {
 				fail("division of non-coordinates")
 			}
+			if xmode {
+				return "(XF.div " + l + " " + r + ")", kRat
+			}
 			if rmode {
 				return "(fdivR rnd " + l + " " + r + ")", kFQ
 			}
 			return "(fdiv " + l + " " + r + ")", kFQ
 		case token.LSS, token.GTR, token.LEQ, token.GEQ, token.EQL:
 			op := map[token.Token]string{token.LSS: "<", token.GTR: ">", token.LEQ: "≤", token.GEQ: "≥", token.EQL: "="}[t.Op]
+			if xmode && (kl == kRat || kl == kERat) && (kr == kRat || kr == kERat) {
+				fn := map[token.Token]string{token.LSS: "XF.lt", token.GTR: "XF.gt", token.LEQ: "XF.le", token.GEQ: "XF.ge", token.EQL: "XF.eq"}[t.Op]
+				return "(" + fn + " " + l + " " + r + ")", kBool
+			}
 			if kl == kRat && kr == kRat {
 				return l + " " + op + " " + r, kProp
 			}
@@ -333,6 +350,13 @@ func trFunc(fd *ast.FuncDecl) string {
 	}
 	fresh := 0
 	body := trStmts(fd.Body.List, env{}, "  ", &fresh)
+	if xmode {
+		ptyp = map[string]string{"P": "PX", "Bounds": "BoundsX"}[ptyp]
+		if lret == "P" {
+			lret = "PX"
+		}
+		return fmt.Sprintf("def %s (%s : %s) : %s :=\n%s\n", name, strings.Join(params, " "), ptyp, lret, body)
+	}
 	if rmode {
 		return fmt.Sprintf("def %s (rnd : Rat → Rat) (%s : %s) : %s :=\n%s\n", name, strings.Join(params, " "), ptyp, lret, body)
 	}
@@ -356,7 +380,7 @@ func extract(repo string) (out string, err error) {
 		{"simplify.go", "pointSubtract", false}, {"simplify.go", "pointOnSegment", false}, {"within.go", "rayIntersectsSegment", false},
 		{"bounds.go", "Empty", true}, {"bounds.go", "Overlaps", true}, {"point.go", "Equals", true}}
 	var b strings.Builder
-	b.WriteString("import GeomV.C02.GenLib\n/-! GENERATED by `harness/cmd/c02 extract` from simplify.go, within.go, bounds.go, area.go, point.go, multipoint.go,\nlinestring.go, multilinestring.go and polygon.go of the tree under test.\nDo not edit; regenerated by every `bin/check C02` run (checks/C02.py pregen). -/\nset_option linter.unusedVariables false\nnamespace GeomV.C02.Gen\nopen GeomV GeomV.C02\n\n")
+	b.WriteString("import GeomV.C02.XF\n/-! GENERATED by `harness/cmd/c02 extract` from simplify.go, within.go, bounds.go, area.go, point.go, multipoint.go,\nlinestring.go, multilinestring.go and polygon.go of the tree under test.\nDo not edit; regenerated by every `bin/check C02` run (checks/C02.py pregen). -/\nset_option linter.unusedVariables false\nnamespace GeomV.C02.Gen\nopen GeomV GeomV.C02\n\n")
 	fset := token.NewFileSet()
 	for pass := 0; pass < 2; pass++ {
 		rmode = pass == 1
@@ -386,6 +410,24 @@ func extract(repo string) (out string, err error) {
 	}
 	rmode = false
 	b.WriteString("end GeomV.C02.GenR\n\n")
+	b.WriteString(extractLoops(repo))
+	// third pass: over XF
+	xmode = true
+	defer func() { xmode = false }()
+	b.WriteString("\n/-! the functions of Point.Within over `XF`: float64 with NaN, ±Inf and -0 (XF.lean) -/\nnamespace GeomV.C02.GenX\nopen GeomV GeomV.C02\n\n")
+	for _, wn := range want {
+		f, perr := parser.ParseFile(fset, filepath.Join(repo, wn.file), nil, 0)
+		if perr != nil {
+			return "", perr
+		}
+		for _, d := range f.Decls {
+			if fd, ok := d.(*ast.FuncDecl); ok && (fd.Recv != nil) == wn.method && fd.Name.Name == wn.fn {
+				b.WriteString(trFunc(fd))
+				b.WriteString("\n")
+			}
+		}
+	}
+	b.WriteString("end GeomV.C02.GenX\n\n")
 	b.WriteString(extractLoops(repo))
 	return b.String(), nil
 }
